@@ -213,6 +213,7 @@ type node struct {
 	sec, attempt, pc int
 	phase            byte // 'r' run | 'a' abort pending | 'd' done
 	op               *opRun
+	pcVersion        int // the version the current attempt pre-commits for
 	hasRead          bool
 	readVal          int32
 	readVer          int
@@ -726,6 +727,9 @@ func (w *world) nodeOp(nd *node, siblingRefuses bool) {
 	case 'P':
 		op := &opRun{kind: 'P'}
 		nd.op = op
+		// PreCommit proposes version+1 of the version it sees now (it aborts by itself if the version moves
+		// while it sleeps in its back-off)
+		nd.pcVersion = w.dump(nd.idx).Version + 1
 		ch := nd.res.PreCommit(iface)
 		go func() {
 			op.err = <-ch
@@ -734,9 +738,13 @@ func (w *world) nodeOp(nd *node, siblingRefuses bool) {
 		}()
 		nd.backoff = true // cleared in settle when a PreCommit message appears or the operation ends
 	case 'C':
-		target := w.dump(nd.idx).Version + 1
+		// the section pre-committed successfully for version pcVersion and now commits: it has won that version
+		target := nd.pcVersion
 		if prev, ok := w.winners[target]; ok {
 			w.fail("two-winners", "version %d: n%d (section %d attempt %d, value %s) and n%d (section %d attempt %d, value %s) both pre-committed successfully and commit", target, prev.node, prev.sec, prev.attempt, prev.val, nd.idx, nd.sec, nd.attempt, nd.wval)
+		}
+		if cur := w.dump(nd.idx).Version + 1; cur != target {
+			w.fail("two-winners", "n%d pre-committed successfully for version %d, but before its Commit another proposer's commit moved it to version %d", nd.idx, target, cur-1)
 		}
 		if nd.hasRead && nd.readVer != target-1 {
 			w.fail("stale-read-commits", "n%d read version %d (value %d) but its section commits as version %d: the value it read was overwritten before it committed and it did not abort", nd.idx, nd.readVer, nd.readVal, target)
@@ -1066,6 +1074,8 @@ func (w *world) key() string {
 		w.kInt(nd.attempt)
 		w.kStr("p")
 		w.kInt(nd.pc)
+		w.kStr("c")
+		w.kInt(nd.pcVersion)
 		w.kb = append(w.kb, nd.phase)
 		if nd.op != nil {
 			w.kb = append(w.kb, 'o', nd.op.kind)
